@@ -37,7 +37,15 @@ def snap(x):
     if isinstance(x, PDA):
         return ('pda', enc.canon_pda(x, False), type(x.delta).__name__)
     if isinstance(x, TM):
-        return ('tm', enc.canon_tm(x))
+        # raw view of the transition table (a lookup that inserts keys into a defaultdict is an observable change: print_tm and
+        # the class invariant read the keys) plus what the printer says
+        raw = sorted('%r: %r' % (k, v) for k, v in x.delta.items())
+        try:
+            from gambatools.tm_algorithms import print_tm
+            txt = print_tm(x)
+        except Exception as e:
+            txt = 'print_tm raises %s' % type(e).__name__
+        return ('tm', sorted(x.Q), sorted(x.Sigma), sorted(x.Gamma), raw, txt)
     if isinstance(x, CFG):
         return ('cfg', enc.cfg_to_spec(x), str(x))
     if isinstance(x, Regexp):
@@ -88,7 +96,7 @@ def ops():
         'dfa_remove_unreachable_states': (['dfa'], DA.dfa_remove_unreachable_states), 'print_dfa': (['dfa'], DA.print_dfa),
         'dfa_union': (['dfa', 'dfa2'], DA.dfa_union), 'dfa_intersection': (['dfa', 'dfa2'], DA.dfa_intersection),
         'dfa_symmetric_difference': (['dfa', 'dfa2'], DA.dfa_symmetric_difference),
-        'dfa_isomorphic1': (['dfa', 'dfa2'], DA.dfa_isomorphic1), 'dfa_isomorphic': (['dfa', 'dfa2'], DA.dfa_isomorphic),
+        'dfa_isomorphic1': (['dfa', 'dfa_near'], DA.dfa_isomorphic1), 'dfa_isomorphic': (['dfa', 'dfa_near'], DA.dfa_isomorphic),
         'dfa_to_regexp': (['dfa'], RA.dfa_to_regexp),
         'nfa_accepts_word': (['nfa', 'word'], NA.nfa_accepts_word), 'nfa_words_up_to_n': (['nfa'], W(NA.nfa_words_up_to_n, 3)),
         'nfa_to_dfa': (['nfa'], NA.nfa_to_dfa), 'epsilon_closure': (['nfa', 'state'], NA.epsilon_closure),
@@ -117,6 +125,51 @@ def make_args(rng, kinds):
     for k in kinds:
         if k == 'dfa':
             spec[k] = gen.counter_dfa(rng) if rng.random() < 0.25 else gen.random_dfa(rng, 4, Sig)
+        elif k == 'dfa_near':
+            # a renamed copy of the first DFA, possibly with one state duplicated (equivalent, not isomorphic) or one edge / one
+            # accepting state changed: the verdicts on such pairs are where exploration order could matter
+            d1 = spec['dfa']
+            split = None
+            if len(d1['Sigma']) >= 2 and rng.random() < 0.5:
+                # a state whose a- and b-successor coincide in the first DFA; the copy sends b to a duplicate of that successor
+                p0 = rng.choice(d1['Q'])
+                a0, b0 = rng.sample(sorted(d1['Sigma']), 2)
+                tgt = [t for (p, a, t) in d1['delta'] if p == p0 and a == a0]
+                if tgt:
+                    for e in d1['delta']:
+                        if e[0] == p0 and e[1] == b0:
+                            e[2] = tgt[0]
+                    split = (p0, b0, tgt[0])
+            m = {q: 'r%d' % i for i, q in enumerate(rng.sample(d1['Q'], len(d1['Q'])))}
+            d2 = {'Q': [m[q] for q in d1['Q']], 'Sigma': list(d1['Sigma']), 'delta': [[m[p], a, m[q]] for p, a, q in d1['delta']],
+                  'q0': m[d1['q0']], 'F': [m[q] for q in d1['F']]}
+            r = rng.random()
+            if split is not None:
+                p0, b0, t0 = split
+                d2['Q'].append('dup')
+                d2['delta'] += [['dup', a, t] for (p, a, t) in list(d2['delta']) if p == m[t0]]
+                if m[t0] in d2['F']:
+                    d2['F'].append('dup')
+                for e in d2['delta']:
+                    if e[0] == m[p0] and e[1] == b0:
+                        e[2] = 'dup'
+                if rng.random() < 0.5:      # make the duplicate differ a little
+                    es = [e for e in d2['delta'] if e[0] == 'dup']
+                    rng.choice(es)[2] = rng.choice(d2['Q'])
+            elif r < 0.4:
+                q = rng.choice(d2['Q'])
+                d2['Q'].append('dup')
+                d2['delta'] += [['dup', a, t] for (p, a, t) in list(d2['delta']) if p == q]
+                if q in d2['F']:
+                    d2['F'].append('dup')
+                for e in d2['delta']:
+                    if e[2] == q and rng.random() < 0.5:
+                        e[2] = 'dup'
+            elif r < 0.6 and d2['delta']:
+                rng.choice(d2['delta'])[2] = rng.choice(d2['Q'])
+            elif r < 0.7:
+                d2 = gen.random_dfa(rng, 3, list(d1['Sigma']), lambda i: 'p%d' % i)
+            spec[k] = d2
         elif k == 'dfa2':
             spec[k] = gen.random_dfa(rng, 3, Sig, lambda i: 'p%d' % i)
         elif k == 'nfa':
@@ -146,8 +199,19 @@ def make_args(rng, kinds):
     return spec
 
 
-BUILDERS = {'pda_small': enc.build_pda, 'dfa': enc.build_dfa, 'dfa2': enc.build_dfa, 'nfa': enc.build_nfa, 'nfa2': enc.build_nfa, 'rx': enc.build_regexp,
-            'pda': enc.build_pda, 'tm': enc.build_tm, 'cfg': enc.build_cfg, 'word': lambda x: x, 'state': lambda x: x}
+def build_tm_either(spec):
+    """half of the machines are built the way the notebooks get them: by the parser (whose transition table is a defaultdict)"""
+    T = enc.build_tm(spec)
+    if core.digest(spec)[0] in '02468ace':
+        try:
+            return TA.parse_tm(TA.print_tm(T))
+        except Exception:
+            return T
+    return T
+
+
+BUILDERS = {'pda_small': enc.build_pda, 'dfa': enc.build_dfa, 'dfa2': enc.build_dfa, 'dfa_near': enc.build_dfa, 'nfa': enc.build_nfa, 'nfa2': enc.build_nfa, 'rx': enc.build_regexp,
+            'pda': enc.build_pda, 'tm': build_tm_either, 'cfg': enc.build_cfg, 'word': lambda x: x, 'state': lambda x: x}
 
 
 def sibling_and_renamed(kind, x, rng):
@@ -206,7 +270,7 @@ def cases(ctx):
     table = ops()
     per = 12 if not thorough else 120
     for name in sorted(table):
-        for i in range(per * (8 if name in ('nfa_union', 'nfa_repetition', 'nfa_concatenation') else 5 if name.startswith('dfa_') else 1)):
+        for i in range(per * (8 if name in ('nfa_union', 'nfa_repetition', 'nfa_concatenation') else 15 if name.startswith('dfa_isomorphic') else 5 if name.startswith('dfa_') else 1)):
             spec = make_args(rng, table[name][0])
             seed = rng.randrange(1 << 30)
             if not thorough or ctx.mine(i):
